@@ -52,12 +52,15 @@ func genC17(rng *Rng, sc *STScript) *STScript {
 		}
 		sc.Ops = append(sc.Ops, op)
 	}
+	if sc.Backend != "memory" && rng.Pct(50) {
+		sc.Faults = rng.Range(1, 3)
+	}
 	return sc
 }
 
 func runC17(s *Sim, sc *STScript) {
 	ctx := context.Background()
-	g := &seqGate{tape: s.Tape, fired: map[string]int{}}
+	g := &seqGate{tape: s.Tape, budget: sc.Faults, fired: map[string]int{}}
 	var rs coreapi.ReplicateStore
 	if sc.Backend == "memory" {
 		rs = &memReplicateStore{m: map[string]coreapi.MetaMsg{}}
@@ -69,8 +72,19 @@ func runC17(s *Sim, sc *STScript) {
 	if err != nil {
 		HarnessFail(s.Plan, "replicate meta: %v", err)
 	}
+	defer func() {
+		for k, v := range g.fired {
+			s.Stats[k] += v
+		}
+	}()
 	type key struct{ task, msg string }
 	model := map[key]map[string]bool{}
+	// after a store call that failed AFTER it was applied (ambiguous outcome) the store may hold what the failed update wrote
+	// although the caller was told it failed: the store is then allowed either content until the key is written again or
+	// memory is rebuilt from the store (then the model adopts what the store holds). A store call that failed BEFORE it was
+	// applied allows nothing: memory, store and model must still agree exactly.
+	ambigPut := map[key]map[string]bool{} // content the store may hold instead
+	ambigDel := map[key]bool{}            // the store may have lost the record
 	kinds := map[key]string{}
 	targets := map[key][]string{}
 	setStr := func(m map[string]bool) string {
@@ -126,6 +140,14 @@ func runC17(s *Sim, sc *STScript) {
 			if memOK != wantOK || (wantOK && mem != want) {
 				s.Violate("C17", "memory_diverges", "after op #%d (%s): task=%s msg=%s in-memory ready set is %q (present=%v), the union of all reports is %q (present=%v)", i, what, k.task, k.msg, mem, memOK, want, wantOK)
 			}
+			if alt, ok := ambigPut[k]; ok && stOK && st == setStr(alt) {
+				s.Probe("store_holds_ambiguous_write")
+				continue
+			}
+			if ambigDel[k] && !stOK {
+				s.Probe("store_lost_record_ambiguously")
+				continue
+			}
 			if stOK != wantOK || (wantOK && st != want) {
 				s.Violate("C17", "store_diverges", "after op #%d (%s): task=%s msg=%s stored ready set is %q (present=%v), the union of all reports is %q (present=%v)", i, what, k.task, k.msg, st, stOK, want, wantOK)
 			}
@@ -144,7 +166,14 @@ func runC17(s *Sim, sc *STScript) {
 			if model[k][op.Shard] {
 				s.Probe("duplicate_report")
 			}
+			prev := map[string]bool{}
+			for sh := range model[k] {
+				prev[sh] = true
+			}
+			hadEntry := len(prev) > 0 || func() bool { _, ok := readMem(k); return ok }()
 			model[k][op.Shard] = true
+			fb, fa := g.fired["fault:store_err_before"], g.fired["fault:store_err_after"]
+			g.enabled = g.budget > 0 && g.tape.Choose(3) == 0
 			base := coreapi.BaseTaskMsg{TaskID: op.Task, MsgID: op.Msg, TargetChannels: append([]string(nil), op.Shards...), ReadyChannels: []string{op.Shard}}
 			var ready bool
 			var err error
@@ -153,10 +182,38 @@ func runC17(s *Sim, sc *STScript) {
 			} else {
 				ready, err = impl.UpdateTaskDropCollectionMsg(ctx, coreapi.TaskDropCollectionMsg{Base: base, DatabaseName: "default", CollectionName: "c", DropTS: 77})
 			}
+			g.enabled = false
+			before, after := g.fired["fault:store_err_before"] > fb, g.fired["fault:store_err_after"] > fa
+			if err != nil && (before || after) {
+				// the update failed because the store failed: the report does not count
+				s.Probe("report_failed_by_store")
+				if after {
+					s.Probe("report_failed_ambiguously")
+					if mem, ok := readMem(k); ok && mem == setStr(model[k]) {
+						// the write was applied and memory kept the report as well: memory and store agree, the report counts
+						s.Probe("ambiguous_report_kept")
+						s.logf("%03d report task=%s msg=%s shard=%s -> store failure after the write was applied; memory kept the report", i, op.Task, op.Msg, op.Shard)
+						break
+					}
+					ambigPut[k] = model[k]
+				}
+				model[k] = prev
+				if !hadEntry {
+					delete(model, k)
+				}
+				s.logf("%03d report task=%s msg=%s shard=%s -> store failure (applied=%v)", i, op.Task, op.Msg, op.Shard, after)
+				break
+			}
+			if err == nil && (before || after) {
+				s.Violate("C17", "store_error_swallowed", "op #%d report(%s,%s,%s): the store call failed but the update reported success", i, op.Task, op.Msg, op.Shard)
+				return
+			}
 			if err != nil {
 				s.Violate("C17", "update_error", "op #%d report(%s,%s,%s) failed: %v", i, op.Task, op.Msg, op.Shard, err)
 				return
 			}
+			delete(ambigPut, k)
+			delete(ambigDel, k)
 			wantReady := len(model[k]) == len(op.Shards)
 			if ready != wantReady {
 				s.Violate("C17", "readiness", "op #%d report(task=%s msg=%s shard=%s): reported ready=%v, but %d of %d target shards have reported (%s)", i, op.Task, op.Msg, op.Shard, ready, len(model[k]), len(op.Shards), setStr(model[k]))
@@ -172,10 +229,25 @@ func runC17(s *Sim, sc *STScript) {
 			if _, known := kinds[k]; !known {
 				kinds[k] = op.Kind
 			}
-			if err := impl.RemoveTaskMsg(ctx, op.Task, op.Msg); err != nil {
+			fb, fa := g.fired["fault:store_err_before"], g.fired["fault:store_err_after"]
+			g.enabled = g.budget > 0 && g.tape.Choose(3) == 0
+			err := impl.RemoveTaskMsg(ctx, op.Task, op.Msg)
+			g.enabled = false
+			before, after := g.fired["fault:store_err_before"] > fb, g.fired["fault:store_err_after"] > fa
+			if err != nil && (before || after) {
+				s.Probe("remove_failed_by_store")
+				if after {
+					ambigDel[k] = true
+				}
+				s.logf("%03d remove task=%s msg=%s -> store failure (applied=%v)", i, op.Task, op.Msg, after)
+				break
+			}
+			if err != nil {
 				s.Violate("C17", "remove_error", "op #%d remove(%s,%s) failed: %v", i, op.Task, op.Msg, err)
 				return
 			}
+			delete(ambigPut, k)
+			delete(ambigDel, k)
 			if model[k] != nil {
 				s.Probe("removed_existing_" + kinds[k])
 			}
@@ -188,6 +260,23 @@ func runC17(s *Sim, sc *STScript) {
 				HarnessFail(s.Plan, "reload: %v", err)
 			}
 			impl = n
+			for k2 := range kinds {
+				_, ap := ambigPut[k2]
+				if !ap && !ambigDel[k2] {
+					continue
+				}
+				// memory now is what the store holds: the model adopts the resolved outcome
+				if ms, err := rs.Get(ctx, coremeta.GetMetaKey(k2.task, k2.msg), false); err == nil && len(ms) > 0 {
+					model[k2] = map[string]bool{}
+					for _, c := range ms[0].Base.ReadyChannels {
+						model[k2][c] = true
+					}
+				} else {
+					delete(model, k2)
+				}
+				delete(ambigPut, k2)
+				delete(ambigDel, k2)
+			}
 			s.Probe("reload")
 			s.logf("%03d reload", i)
 		}
